@@ -22,7 +22,11 @@ func harnessC08Hooks() {
 	wantT := reflect.TypeOf(evA{})
 	hookArgsOK := true
 	var opts []Option
-	plainViaSetters := vBool() // the two plain hooks installed with Set...Hook after construction
+	// one of five configurations (not their cross product): 0 plain, 1 a store among the options,
+	// 2 a store and the context-aware before hook given twice, 3 that hook given twice without a
+	// store, 4 the two plain hooks installed with Set...Hook after construction
+	variant := vPick(5)
+	plainViaSetters := variant == 4
 	fnB := func(t reflect.Type, ev any) {
 		e, ok := ev.(evA)
 		hookArgsOK = hookArgsOK && t == wantT && ok && e.N == 42
@@ -56,12 +60,12 @@ func harnessC08Hooks() {
 	// a store among the options (WithStore chains its persistence step onto the context-aware
 	// before hook) and the context-aware before hook given a second time: the hook given last
 	// is the one installed, it runs once per publish, the replaced one not at all
-	if vBool() {
+	if variant == 1 || variant == 2 {
 		pos := vInt(0, len(opts))
 		withStore := append(append(append([]Option{}, opts[:pos]...), WithStore(NewMemoryStore())), opts[pos:]...)
 		opts = withStore
 	}
-	dupBC := hookBC && vBool()
+	dupBC := hookBC && (variant == 2 || variant == 3)
 	if dupBC {
 		opts = append(opts, WithBeforePublishContext(func(ctx context.Context, t reflect.Type, ev any) {
 			e, ok := ev.(evA)
